@@ -48,6 +48,8 @@ def run(ctx):
     rule_rollback(ctx, F)
     rule_trunc(ctx, F)
     rule_lsuffix(ctx, F)
+    rule_dispatch(ctx, F)
+    rule_flags(ctx, F)
 
 
 SEGS = [("new::base::name::absolute::parse_segment", "size", +1), ("new::base::name::reversed::parse_segment", "offset", -1)]
@@ -764,6 +766,61 @@ def rule_rev(ctx, F):
            "is read back as `_tcp._sip.example.org.`", b.where(comp[0]))
 
 
+def _uses_compressor(F, body, argn, depth=0):
+    """does `body` let its parameter argn reach NameCompressor::compress_*?  (followed through resolved callees;
+    an unresolved trait call that receives it counts as a use)"""
+    for _, tt in body.calls():
+        hit = None
+        for i, a in enumerate(tt["args"]):
+            tm = deep_strip(body.term_of_operand(a))
+            if tm == ("arg", argn):          # the compressor itself (or a reborrow of it), not a value computed with it
+                hit = i
+        if hit is None:
+            continue
+        fn = tt.get("res") or tt["fn"] or ""
+        if re.search(r"NameCompressor::compress_", fn):
+            return True
+        cb = F.bodies.get(fn)
+        if cb is None:
+            return True
+        if depth < 3 and _uses_compressor(F, cb, hit + 1, depth + 1):
+            return True
+    return False
+
+
+def rule_dispatch(ctx, F):
+    """The new codec's record-data dispatcher reads a record out of a *message*: a type whose builder compresses
+    its names has to be read with `parse_message_bytes` there (which follows pointers); reading it with `parse_bytes`
+    on the tail of the message refuses what the new builder -- and every other implementation -- writes."""
+    R = "C19.dispatch"
+    ctx.floor(R, 10)
+    d = F.one_body(r"^<new::rdata::RecordData<'a, N> as new::base::record::ParseRecordData<'a>>::parse_record_data$") or \
+        F.one_body(r"new::rdata::RecordData<.*>.*::parse_record_data$")
+    if not ctx.anchor(R, "new::rdata::RecordData::parse_record_data", d):
+        return
+    builds = {}
+    for p, b in F.bodies.items():
+        m = re.match(r"^<(&'a )?(new::rdata::[\w:]+)(<.*>)? as new::base::build::BuildInMessage>::build_in_message$", p)
+        if m:
+            builds[m.group(2)] = b
+    n = 0
+    for bb, t in d.calls():
+        res = t.get("res") or ""
+        m = re.match(r"^<(&'a )?(new::rdata::[\w:]+)(<.*>)? as new::base::(parse|wire)::[\w:]*(ParseBytes|ParseMessageBytes)(<.*>)?>::(parse_bytes|parse_message_bytes)$", res)
+        if not m:
+            continue
+        ty, how = m.group(2), m.group(7)
+        if ty not in builds:
+            continue
+        n += 1
+        compresses = _uses_compressor(F, builds[ty], 4)
+        ctx.ob(R, d, "%s is read the way it is written" % ty.split("::")[-1], not (compresses and how == "parse_bytes"),
+               "parse_record_data reads %s with parse_bytes (no decompression) although %s::build_in_message compresses its names: "
+               "the new reader rejects -- or misreads -- a record the new builder and the established codec produce"
+               % (ty.split("::")[-1], ty.split("::")[-1]), d.where(bb), detail="%s, builder %s" % (how, "compresses" if compresses else "does not compress"))
+    ctx.call_sites += n
+
+
 def rule_cmpr(ctx, F):
     """Writer and reader of one record type agree on name compression: a type whose `parse_message_bytes` reads its data
     without decompression (`*_without_compression` only) must not hand the compressor on in `build_in_message` -- otherwise
@@ -787,27 +844,7 @@ def rule_cmpr(ctx, F):
         if not plain and not decomp:
             continue
         n += 1
-        def uses_compressor(body, argn, depth=0):
-            """does `body` let its parameter argn reach NameCompressor::compress_*?  (followed through resolved callees;
-            an unresolved trait call that receives it counts as a use)"""
-            for _, tt in body.calls():
-                hit = None
-                for i, a in enumerate(tt["args"]):
-                    tm = deep_strip(body.term_of_operand(a))
-                    if tm == ("arg", argn):          # the compressor itself (or a reborrow of it), not a value computed with it
-                        hit = i
-                if hit is None:
-                    continue
-                fn = tt.get("res") or tt["fn"] or ""
-                if re.search(r"NameCompressor::compress_", fn):
-                    return True
-                cb = F.bodies.get(fn)
-                if cb is None:
-                    return True
-                if depth < 3 and uses_compressor(cb, hit + 1, depth + 1):
-                    return True
-            return False
-        passes = uses_compressor(bb_, 4)
+        passes = _uses_compressor(F, bb_, 4)
         ctx.ob(R, bb_, "%s: compresses names only if its parser decompresses them" % ty.split("::")[-1], not (passes and not decomp),
                "%s::build_in_message hands the name compressor on, but %s::parse_message_bytes reads the record data with %s "
                "only (no decompression): the new parser refuses the record the new builder wrote, and the name must not be "
@@ -873,3 +910,88 @@ def rule_lsuffix(ctx, F):
         elif kind in ("const", "agg") or term is not None:
             cv = const_value(deep_strip(term)) if term is not None else None
             ctx.ob(R, b, "constant result", True, where=b.where(rb), nontrivial=False, detail=str(cv))
+
+
+HEADER_BITS = {  # RFC 1035 4.1.1 / RFC 2535: field -> (lowest bit, width) in the 16-bit flags word
+    "qr": (15, 1), "opcode": (11, 4), "aa": (10, 1), "tc": (9, 1), "rd": (8, 1), "ra": (7, 1), "ad": (5, 1), "cd": (4, 1), "rcode": (0, 4),
+}
+
+
+def _const16(t):
+    """value of a constant 16-bit expression (literals, shifts, masks, `!`), or None"""
+    t = deep_strip(t)
+    cv = const_value(t)
+    if cv is not None and isinstance(cv, int):
+        return cv & 0xFFFF
+    if t[0] == "cast":
+        return _const16(t[2])
+    if t[0] == "un" and t[1] == "Not":
+        v = _const16(t[2])
+        return None if v is None else (~v) & 0xFFFF
+    if t[0] == "bin":
+        a, c = _const16(t[2]), _const16(t[3])
+        if a is None or c is None:
+            return None
+        op = t[1].replace("Unchecked", "").replace("WithOverflow", "")
+        return {"Shl": (a << c) & 0xFFFF if c < 16 else None, "Shr": a >> c if c < 16 else None, "BitAnd": a & c, "BitOr": a | c,
+                "BitXor": a ^ c, "Add": (a + c) & 0xFFFF, "Sub": (a - c) & 0xFFFF}.get(op)
+    return None
+
+
+def rule_flags(ctx, F):
+    """The new codec's HeaderFlags keeps the sixteen flag bits in one word.  For every field the setter clears exactly the
+    bits the getter reads -- RFC 1035's position and width -- and ORs the value in at that position: a clear mask
+    that is wider (`!0xF << 11` = 0x8000 for `!(0xF << 11)`) wipes the neighbouring fields whenever the setter is
+    called after them."""
+    R = "C19.flags"
+    ctx.floor(R, 9)
+    H = r"^new::base::message::HeaderFlags::%s$"
+    sf, gf = F.one_body(H % "set_flag"), F.one_body(H % "get_flag")
+    if ctx.anchor(R, "HeaderFlags::set_flag / get_flag", sf is not None and gf is not None):
+        clr = [deep_strip(sf.term_of_operand(t["args"][1])) for _, t in sf.calls() if (t["fn"] or "").endswith("bitand_assign")]
+        orr = [deep_strip(sf.term_of_operand(t["args"][1])) for _, t in sf.calls() if (t["fn"] or "").endswith("bitor_assign")]
+        def shl_by_pos(t, one):
+            return t[0] == "bin" and t[1].startswith("Shl") and deep_strip(t[3]) == ("arg", 2) and \
+                (const_value(deep_strip(t[2])) == 1 if one else True)
+        ok = len(clr) == 1 and len(orr) == 1 and clr[0][0] == "un" and clr[0][1] == "Not" and shl_by_pos(deep_strip(clr[0][2]), True) \
+            and shl_by_pos(orr[0], False)
+        ctx.ob(R, sf, "set_flag clears and sets bit `pos` only", ok,
+               "set_flag does not clear with !(1 << pos) and set with (value << pos) (found clear %s, set %s)"
+               % ([show(x) for x in clr], [show(x) for x in orr]))
+    for name, (low, width) in sorted(HEADER_BITS.items()):
+        g, s_ = F.one_body(H % name), F.one_body(H % ("set_" + name))
+        if not ctx.anchor(R, "HeaderFlags::%s / set_%s" % (name, name), g is not None and s_ is not None):
+            continue
+        if width == 1:
+            gp = [const_value(deep_strip(g.term_of_operand(t["args"][1]))) for _, t in g.calls() if (t["fn"] or "").endswith("::get_flag")]
+            sp = [const_value(deep_strip(s_.term_of_operand(t["args"][1]))) for _, t in s_.calls() if (t["fn"] or "").endswith("::set_flag")]
+            ctx.ob(R, s_, "%s is bit %d for getter and setter" % (name.upper(), low), gp == [low] and sp == [low],
+                   "HeaderFlags::%s reads bit %s and set_%s writes bit %s; RFC 1035 4.1.1 puts %s at bit %d" % (name, gp, name, sp, name.upper(), low))
+            continue
+        clr = [_const16(s_.term_of_operand(t["args"][1])) for _, t in s_.calls() if (t["fn"] or "").endswith("bitand_assign")]
+        shifts = []
+        for _, t in s_.calls():
+            if (t["fn"] or "").endswith("bitor_assign"):
+                tm = deep_strip(s_.term_of_operand(t["args"][1]))
+                while tm[0] == "cast":
+                    tm = deep_strip(tm[2])
+                if tm[0] == "bin" and tm[1].startswith("Shl"):
+                    shifts.append(const_value(deep_strip(tm[3])))
+                else:
+                    shifts.append(0)
+        want = (~(((1 << width) - 1) << low)) & 0xFFFF
+        ctx.ob(R, s_, "set_%s clears exactly bits %d..%d and sets there" % (name, low, low + width - 1), clr == [want] and shifts == [low],
+               "HeaderFlags::set_%s clears with the mask %s and shifts the value by %s; the field occupies bits %d..%d, so the mask "
+               "has to be %#06x and the shift %d: as it is, setting the %s wipes or keeps the wrong bits (every flag set before it)"
+               % (name, [("%#06x" % c) if c is not None else "?" for c in clr], shifts, low, low + width - 1, want, low, name.upper()))
+        rets = [deep_strip(t) for _, _, _, t in return_assignments(g) if t is not None]
+        gok = False
+        for t in rets:
+            if t[0] == "bin" and t[1] == "BitAnd" and const_value(deep_strip(t[3])) == (1 << width) - 1:
+                inner = deep_strip(t[2])
+                while inner[0] == "cast":
+                    inner = deep_strip(inner[2])
+                sh = const_value(deep_strip(inner[3])) if inner[0] == "bin" and inner[1].startswith("Shr") else 0
+                gok = sh == low
+        ctx.ob(R, g, "%s() reads bits %d..%d" % (name, low, low + width - 1), gok,
+               "HeaderFlags::%s does not read (word >> %d) & %#x" % (name, low, (1 << width) - 1))
